@@ -23,6 +23,12 @@ type vPanicStruct struct {
 	B string
 }
 
+// vNilErr: an error type whose method dereferences its receiver; a nil *vNilErr
+// wrapped in an error is a classic panic value whose Error() itself panics.
+type vNilErr struct{ msg string }
+
+func (e *vNilErr) Error() string { return e.msg }
+
 type vUnmapped struct{ x int } // a type nobody maps: resolving it fails
 
 var vErrSentinel = errors.New("sentinel failure")
@@ -30,7 +36,7 @@ var vErrSentinel = errors.New("sentinel failure")
 func VH_C15_recovery() {
 	before := vx.ParamInt("before") // middleware in front of Recovery
 	depth := vx.ParamInt("depth")   // pass-through handlers between Recovery and the panicking one
-	kind := vx.Choice(9)            // what is thrown (6: a panic raised inside a ResponseWriter Before function; 7: http.ErrAbortHandler; 8: the underlying writer panics on an invalid status code the handler returned)
+	kind := vx.Choice(10)           // what is thrown (6: a panic raised inside a ResponseWriter Before function; 7: http.ErrAbortHandler; 8: the underlying writer panics on an invalid status code the handler returned)
 	phase := vx.Choice(2)           // 0: before the handler wrote anything, 1: after its own write
 	if kind == 6 || kind == 8 {
 		vx.Assume(phase == 0) // these cases have no "after its own write" phase
@@ -101,6 +107,10 @@ func VH_C15_recovery() {
 			_ = arr[c.ResponseWriter().Size()+3] // runtime error: index out of range
 		case 7:
 			panic(http.ErrAbortHandler)
+		case 9:
+			var ne *vNilErr
+			var err error = ne
+			panic(err) // rendering this value calls a method that panics in turn
 		case 6:
 			// the handler registers a before-function that panics, then writes
 			c.ResponseWriter().Before(func(ResponseWriter) { panic("hook") })
